@@ -39,6 +39,29 @@ def unpack_source(fnode, name):
     return None, None
 
 
+def formal_position_name(fi, e):
+    """Formal position whose attribute *name* the expression denotes: attr_pair_1[0] -> 0 (the name half of pair 1)."""
+    if isinstance(e, ast.Subscript) and isinstance(e.slice, ast.Constant) and e.slice.value == 0:
+        inner = e.value
+        # treat the pair as its value half to reuse the tracer
+        fake = ast.copy_location(ast.Subscript(value=inner, slice=ast.Constant(value=1), ctx=ast.Load()), e)
+        return formal_position(fi, fake)
+    if isinstance(e, ast.Name):
+        src, idx = unpack_source(fi.node, e.id)
+        if isinstance(src, (ast.Tuple, ast.List)) and idx is not None:
+            cur = src
+            for i in (idx if isinstance(idx, tuple) else (idx,)):
+                if isinstance(cur, (ast.Tuple, ast.List)) and isinstance(i, int) and i < len(cur.elts):
+                    cur = cur.elts[i]
+                else:
+                    return None
+            return formal_position_name(fi, cur)
+        d = [x for x in all_assignments(fi.node, e.id) if x is not None]
+        if len(d) == 1:
+            return formal_position_name(fi, d[0])
+    return None
+
+
 def formal_position(fi, e, depth=0):
     """Formal-attribute position (0-based) the expression ultimately denotes, following tuple unpackings:
     qn1 <- attr_pair_1[1] <- (relation.formal_attributes[:2])[0]  => 0."""
@@ -91,6 +114,16 @@ def c14_r2(ctx: Ctx, rule):
     if not ctors:
         raise AnalysisError("prov_to_graph: inferred-node constructions not found")
     for c in ctors:
+        # the class of an inferred node is looked up under the attribute name of the SAME end as the name it is created for
+        hold = next((q2 for q2 in ctx.helper_closure(q) if any(x is c for x in ast.walk(ctx.fn(q2).node))), q)
+        hf = ctx.fn(hold)
+        kpos = formal_position_name(hf, c.func.slice)
+        vpos = formal_position(hf, c.args[1])
+        if kpos is not None and vpos is not None:
+            res.ob("inferred node %s: class looked up under the attribute name of formal position %s, created for the value of position %s" % (norm(c)[:50], kpos, vpos))
+            if kpos != vpos:
+                res.fail(rule.id, "inferred-kind-from-other-end::%s" % norm(c)[:40], ctx.loc(hold, c), "the node for formal position %d is given the element kind of position %d" % (vpos, kpos),
+                         "wasGeneratedBy(e, a0) with a0 undeclared: the inferred node for a0 is an entity")
         ok = isinstance(c.args[0], ast.Constant) and c.args[0].value is None
         res.ob("inferred node %s is created with bundle=None: %s" % (norm(c)[:60], ok))
         if not ok:
@@ -136,6 +169,26 @@ def c14_r2(ctx: Ctx, rule):
                     if isinstance(t, ast.If) and any(x is n for x in ast.walk(t.test)) and any(isinstance(b, (ast.Continue, ast.Return)) for b in t.body):
                         tests.append(n)
     res.ob("graph_to_prov keeps only nodes whose bundle is not None: %s" % bool(tests))
+    # the test must be a *necessary* condition of re-adding a node: the guard of add_record implies it (truth table over its atoms)
+    from .codecs import _bool_leaves, _bool_eval
+
+    for t in walk_function(gf.node):
+        if isinstance(t, ast.If) and any(isinstance(c, ast.Call) and call_name(c) == "add_record" for b in t.body for c in ast.walk(b)):
+            leaves = {}
+            _bool_leaves(t.test, leaves)
+            gname = next((k for k, e in leaves.items() if isinstance(e, ast.Compare) and isinstance(e.ops[0], ast.IsNot) and isinstance(e.left, ast.Attribute) and e.left.attr in ("bundle", "_bundle")), None)
+            if gname is None or len(leaves) > 10:
+                continue
+            names = sorted(leaves)
+            bad = None
+            for bits in range(1 << len(names)):
+                env = {nm: bool(bits >> i & 1) for i, nm in enumerate(names)}
+                if _bool_eval(t.test, env) and not env[gname]:
+                    bad = env
+            res.ob("the guard of add_record (`%s`) implies `%s`: %s" % (norm(t.test)[:50], gname, bad is None))
+            if bad is not None:
+                res.fail(rule.id, "inferred-sentinel::filter-not-necessary", ctx.loc(gq, t), "nodes are re-added under `%s`, which does not require `%s`" % (norm(t.test)[:60], gname),
+                         "inferred endpoint nodes come back as declared, attribute-free elements")
     # `.bundle` of a graph node is Optional (None marks an inferred node; a graph may hold nothing else, or nothing at all):
     # it is never dereferenced without a None test
     gg2 = get_cfg(ctx, gq)
